@@ -848,6 +848,15 @@ theorem C08_readlookuplist_accepts (b : Bytes) (extType : Nat) (sl : List LL.Spe
   obtain ⟨ls, h1, h2, _⟩ := LL.readLL_accept b extType sl h hb
   exact ⟨ls, h1, h2⟩
 
+/-- Completeness of the replacement loop of `LookupList.tryReorder` (model `LL.replLoop`): whenever it
+ends with the moved lookup still above 0xFFFF - the only way `tryReorder` refuses - it has visited
+every other lookup, the smallest included, and replaced every one that shrinks: the all-replaced
+layout is tried before giving up. -/
+theorem C08_tryreorder_complete (size newSize : Nat → Nat) (ts : List Nat) (lastPos : Nat)
+    (h : (LL.replLoop size newSize ts lastPos []).2 > 0xFFFF) :
+    ∀ t ∈ ts, newSize t < size t → t ∈ (LL.replLoop size newSize ts lastPos []).1 :=
+  (LL.replLoop_complete size newSize ts lastPos [] h).1
+
 /-- `Info.readGo` = header + script list + feature list + `readLookupList` (Go reader model, the codec's
 decoder as subtable reader).  decode ∘ encode = nf for it, within the budget. -/
 theorem C08_info_roundtrip_go {σ : Type} (C : InfoA.SubCodec σ) (extType : Nat) (I : InfoA.Info σ)
